@@ -352,7 +352,7 @@ PROPS = {
                  "serve-request callbacks and the contents of the watch / serve loops are not modelled"],
         "gen_facts": [],
         "kernels": [("ctx", 600, 12000), ("stdio", 3000, 60000)],
-        "searches": [("c20-plugins", 200, 5000), ("c20-race", 60, 1500)],
+        "searches": [("c20-plugins", 200, 5000), ("c20-race", 60, 1500), ("c20-watch", 12, 300)],
         "binaries": ["hapi-race", "hinternal-race"],
         "scope": "the mutex-protected steps of internalContext.rebuild / Cancel / Dispose are modelled as an interleaving state machine over any number of threads; real histories (stamped calls, returns, build starts and ends, returned build identity, versions seen) are linearised by the harness and replayed on the model; plugin callback ordering is checked from stamped logs; data races by the race detector. cmd/esbuild/stdio_protocol.go (readUint32, writeUint32, readLengthPrefixedSlice, encodePacket, decodePacket) is transcribed with explicit PANIC, the read/framing loop of runService and the synchronous part of handleIncomingPacket (cmd/esbuild/service.go) are modelled; the real routines run through cmd/esbuild/verif_codec_test.go (go test -tags verif), whole runService sessions over pipes with exact read chunks",
         "assumptions": ["stamps are taken outside the context's mutex, so the harness chooses the moments of the locked steps inside the observed windows (two strategies); a history is rejected only if no choice fits", "scheduling is perturbed with random delays, not enumerated: an interleaving that never occurs in the runs is covered by the theorems only, not by the tie", "watch mode and serve mode are not exercised", "stdio: Go int is 64 bit; make(count) succeeds (the generator clamps counts to 65535); no pings, active builds or outstanding requests in the modelled sessions"],
